@@ -28,18 +28,23 @@ open Txt Rd
 /-- the characters of a numeral the long-format reader accepts -/
 def numChar (c : Char) : Bool := c.isDigit || c == '.' || c == 'e' || c == 'E' || c == '+' || c == '-'
 
-/-- `w` matches `[\d.]+(?:[eE][-+]?\d+)?` entirely (CPython's `repr` / `"%d"` of a finite non-negative number does).
-No sign is accepted.  C01 quantifies over non-negative times, so for C01 this is the property's own quantifier; what the
-reader does with a signed numeral: on the rows whose pattern has `-?` (a tier's / an interval's `xmin`, a point's `number`)
-the `-` is matched but NOT captured — `-1.5` is read as `1.5`, `-0` as `0` (`C03.numAfter_start_gen`; whole files:
-`C03.parseLong_layout_signed`) — and on the `xmax` rows nothing matches: `ParsingError` (`C03.numAfter_signed_none`); a
-negative time in a whole file: `C03.long_short_negative_counterexample`.  A `+` sign is matched by no pattern
-(`ParsingError`). -/
-inductive LongNum : List Char → Prop
-  | plain (m : List Char) (hm : m ≠ []) (hd : ∀ c ∈ m, isDigitDot c = true) : LongNum m
+/-- `w` matches `[\d.]+(?:[eE][-+]?\d+)?` entirely: an UNSIGNED numeral (CPython's `repr` / `"%d"` of a finite non-negative
+number is one). -/
+inductive UNum : List Char → Prop
+  | plain (m : List Char) (hm : m ≠ []) (hd : ∀ c ∈ m, isDigitDot c = true) : UNum m
   | exp (m : List Char) (c : Char) (sg ds : List Char) (hm : m ≠ []) (hd : ∀ c ∈ m, isDigitDot c = true)
       (hc : c = 'e' ∨ c = 'E') (hsg : sg = [] ∨ sg = ['-'] ∨ sg = ['+']) (hds : ds ≠ [])
-      (hdd : ∀ c ∈ ds, c.isDigit = true) : LongNum (m ++ c :: (sg ++ ds))
+      (hdd : ∀ c ∈ ds, c.isDigit = true) : UNum (m ++ c :: (sg ++ ds))
+
+/-- `w` matches the captured group `-?[\d.]+(?:[eE][-+]?\d+)?` of the long-format reader's numeric rows entirely: an unsigned
+numeral or `-` followed by one — CPython's `repr` / `"%d"` of EVERY finite number, negative ones and `-0.0` included
+(`-0` is written for −0.0).  Since fix A30 (c4606fd) the sign is inside the captured group on every numeric row (tier and
+entry `xmin`, `xmax`, `number`); before it the `-` was matched but not captured on the start rows (`-1.5` was read as `1.5`)
+and not matched at all on the `xmax` rows (`ParsingError`).  A `+` sign is matched by no pattern (`ParsingError`; CPython
+writes none). -/
+inductive LongNum : List Char → Prop
+  | pos (w : List Char) (h : UNum w) : LongNum w
+  | neg (w : List Char) (h : UNum w) : LongNum ('-' :: w)
 
 theorem digitDot_numChar (c : Char) (h : isDigitDot c = true) : numChar c = true := by
   simp only [isDigitDot, Bool.or_eq_true] at h
@@ -48,7 +53,7 @@ theorem digitDot_numChar (c : Char) (h : isDigitDot c = true) : numChar c = true
   · simp [h]
   · simp [h]
 
-theorem LongNum.chars {w : List Char} (h : LongNum w) : ∀ c ∈ w, numChar c = true := by
+theorem UNum.chars {w : List Char} (h : UNum w) : ∀ c ∈ w, numChar c = true := by
   cases h with
   | plain m hm hd => intro c hc; exact digitDot_numChar c (hd c hc)
   | exp m c sg ds hm hd hc hsg hds hdd =>
@@ -63,10 +68,24 @@ theorem LongNum.chars {w : List Char} (h : LongNum w) : ∀ c ∈ w, numChar c =
       · simp at hx; subst hx; decide
     · simp [numChar, hdd x hx]
 
-theorem LongNum.ne_nil {w : List Char} (h : LongNum w) : w ≠ [] := by
+theorem UNum.ne_nil {w : List Char} (h : UNum w) : w ≠ [] := by
   cases h with
   | plain m hm hd => exact hm
   | exp m c sg ds hm hd hc hsg hds hdd => simp
+
+theorem LongNum.chars {w : List Char} (h : LongNum w) : ∀ c ∈ w, numChar c = true := by
+  cases h with
+  | pos _ h => exact h.chars
+  | neg u h =>
+    intro c hc
+    rcases List.mem_cons.1 hc with rfl | hc
+    · decide
+    · exact h.chars c hc
+
+theorem LongNum.ne_nil {w : List Char} (h : LongNum w) : w ≠ [] := by
+  cases h with
+  | pos _ h => exact h.ne_nil
+  | neg u h => simp
 
 theorem runLen_append_stop (p : Char → Bool) (m rest : List Char) (hm : ∀ c ∈ m, p c = true)
     (hr : rest.head?.any p = false) : runLen p (m ++ rest) = m.length := by
@@ -83,7 +102,7 @@ theorem blankL_sp_nl (rest : List Char) : blankL (' ' :: '\n' :: rest) = true :=
   simp [blankL, show pyIsSpace ' ' = true by decide]
 
 /-- **the numeral matcher on a written numeral** followed by ` \n` captures exactly the numeral -/
-theorem numLen_written (w rest : List Char) (h : LongNum w) : numLen (w ++ ' ' :: '\n' :: rest) = some w.length := by
+theorem numLen_written (w rest : List Char) (h : UNum w) : numLen (w ++ ' ' :: '\n' :: rest) = some w.length := by
   cases h with
   | plain _ hm hd =>
     have hr : runLen isDigitDot (w ++ ' ' :: '\n' :: rest) = w.length :=
@@ -156,7 +175,7 @@ theorem numLen_written (w rest : List Char) (h : LongNum w) : numLen (w ++ ' ' :
 theorem headLen_eq (rest : List Char) : headLen (' ' :: '=' :: ' ' :: rest) = some 3 := by
   simp [headLen, spLen]
 
-theorem LongNum.head {w : List Char} (h : LongNum w) : ∃ a as, w = a :: as ∧ isDigitDot a = true := by
+theorem UNum.head {w : List Char} (h : UNum w) : ∃ a as, w = a :: as ∧ isDigitDot a = true := by
   cases h with
   | plain _ hm hd =>
     cases w with
@@ -167,7 +186,7 @@ theorem LongNum.head {w : List Char} (h : LongNum w) : ∃ a as, w = a :: as ∧
     | nil => exact absurd rfl hm
     | cons x xs => exact ⟨x, xs ++ c :: (sg ++ ds), rfl, hd x (by simp)⟩
 
-theorem LongNum.head_not_minus {w : List Char} (h : LongNum w) (rest : List Char) :
+theorem UNum.head_not_minus {w : List Char} (h : UNum w) (rest : List Char) :
     ((w ++ rest).head? == some '-') = false := by
   obtain ⟨a, as, rfl, ha⟩ := h.head
   simp only [List.cons_append, List.head?_cons]
@@ -175,15 +194,28 @@ theorem LongNum.head_not_minus {w : List Char} (h : LongNum w) (rest : List Char
   | false => rfl
   | true => simp at hx; subst hx; exact absurd ha (by decide)
 
-/-- **(a) `matchNum` on a written row**, after the keyword: ` = W \n…` yields `W` -/
-theorem numAfter_written (neg : Bool) (w rest : List Char) (h : LongNum w) :
-    numAfter neg (' ' :: '=' :: ' ' :: (w ++ ' ' :: '\n' :: rest)) = some w := by
+/-- the first character of a numeral is a numeral character (so neither a blank nor `=`) -/
+theorem LongNum.head {w : List Char} (h : LongNum w) : ∃ a as, w = a :: as ∧ numChar a = true := by
+  cases h with
+  | pos _ h => obtain ⟨a, as, e, ha⟩ := h.head; exact ⟨a, as, e, digitDot_numChar a ha⟩
+  | neg u h => exact ⟨'-', u, rfl, by decide⟩
+
+/-- **(a) `matchNum` on a written row**, after the keyword: ` = W \n…` yields `W` — the sign of a negative numeral included
+(pattern `(-?…)`, every numeric row since fix A30) -/
+theorem numAfter_written (w rest : List Char) (h : LongNum w) :
+    numAfter true (' ' :: '=' :: ' ' :: (w ++ ' ' :: '\n' :: rest)) = some w := by
   unfold numAfter
   rw [headLen_eq]
   simp only [List.drop_succ_cons, List.drop_zero]
-  have hm := h.head_not_minus (' ' :: '\n' :: rest)
-  simp only [hm, Bool.and_false, Bool.false_eq_true, if_false, List.drop_zero, numLen_written w rest h, Option.map_some,
-    List.take_left]
+  cases h with
+  | pos _ h =>
+    have hm := h.head_not_minus (' ' :: '\n' :: rest)
+    simp only [hm, Bool.and_false, Bool.false_eq_true, if_false, List.drop_zero, numLen_written w rest h, Option.map_some,
+      List.take_left, List.take_zero, List.nil_append]
+  | neg u h =>
+    simp only [List.cons_append, List.head?_cons, Bool.true_and, beq_self_eq_true, if_true, List.drop_succ_cons,
+      List.drop_zero, numLen_written u rest h, Option.map_some, List.take_left, List.take_succ_cons, List.take_zero,
+      List.nil_append]
 
 /-! ## text rows -/
 
@@ -776,9 +808,9 @@ theorem readEntry_iv (num : α → String) (hnum : ∀ x, LongNum (num x).toList
   have et := notMem_num _ (hnum e.e) 't' (by decide)
   have h1 : matchNum (ivBody num j e ++ ws).toArray (lit "xmin") true = some (num e.s).toList.toArray := by
     rw [matchNum_eq _ _ _ (by decide), lit_xmin, List.toList_toArray, ivBody_shape,
-      scanL_after 'x' _ _ _ _ _ (by simp [ix, tx]) (numAfter_written true _ _ (hnum e.s))]
+      scanL_after 'x' _ _ _ _ _ (by simp [ix, tx]) (numAfter_written _ _ (hnum e.s))]
     rfl
-  have h2 : matchNum (ivBody num j e ++ ws).toArray (lit "xmax") false = some (num e.e).toList.toArray := by
+  have h2 : matchNum (ivBody num j e ++ ws).toArray (lit "xmax") true = some (num e.e).toList.toArray := by
     rw [matchNum_eq _ _ _ (by decide), lit_xmax, List.toList_toArray, ivBody_shape,
       scanL_skip 'x' _ _ _ _ (by simp [ix, tx])]
     rw [List.cons_append, scanL_fail _ _ _ _ (by simp [List.isPrefixOf])]
@@ -787,7 +819,7 @@ theorem readEntry_iv (num : α → String) (hnum : ∀ x, LongNum (num x).toList
     have e1 : ∀ T : List Char, ['m', 'i', 'n'] ++ (' ' :: '=' :: ' ' :: ((num e.s).toList ++ ' ' :: '\n' :: (tab3 ++ T))) =
         (['m', 'i', 'n'] ++ (' ' :: '=' :: ' ' :: ((num e.s).toList ++ ' ' :: '\n' :: tab3))) ++ T := by
       intro T; simp only [List.append_assoc, List.cons_append, List.nil_append]
-    rw [e1, scanL_after 'x' ['m', 'a', 'x'] _ _ (numAfter false) _ hC (numAfter_written false _ _ (hnum e.e))]
+    rw [e1, scanL_after 'x' ['m', 'a', 'x'] _ _ (numAfter true) _ hC (numAfter_written _ _ (hnum e.e))]
     rfl
   have h3 : matchText (ivBody num j e ++ ws).toArray (lit "text") true = some (escapeL e.l.toList).toArray := by
     rw [matchText_eq _ _ _ (by decide), lit_text, List.toList_toArray, ivBody_shape]
@@ -814,7 +846,7 @@ theorem readEntry_pt (num : α → String) (hnum : ∀ x, LongNum (num x).toList
   have s_m := notMem_num _ (hnum p.t) 'm' (by decide)
   have h1 : matchNum (ptBody num j p ++ ws).toArray (lit "number") true = some (num p.t).toList.toArray := by
     rw [matchNum_eq _ _ _ (by decide), lit_number, List.toList_toArray, ptBody_shape,
-      scanL_after 'n' _ _ _ _ _ (by simp [i_n, t_n]) (numAfter_written true _ _ (hnum p.t))]
+      scanL_after 'n' _ _ _ _ _ (by simp [i_n, t_n]) (numAfter_written _ _ (hnum p.t))]
     rfl
   have h3 : matchText (ptBody num j p ++ ws).toArray (lit "mark") true = some (escapeL p.l.toList).toArray := by
     rw [matchText_eq _ _ _ (by decide), lit_mark, List.toList_toArray, ptBody_shape,
@@ -1031,7 +1063,7 @@ name) do not match, because a quote follows on the same line -/
 theorem head_nums (num : α → String) (hnum : ∀ x, LongNum (num x).toList) (k : Nat) (cls : List Char) (name : String)
     (lo hi : α) (cnt : List Char) (n : Nat) (ws : List Char) (hcls : '\n' ∉ cls) (hname : '\n' ∉ name.toList) :
     matchNum (tierHead num k cls name lo hi cnt n ++ ws).toArray (lit "xmin") true = some (num lo).toList.toArray ∧
-    matchNum (tierHead num k cls name lo hi cnt n ++ ws).toArray (lit "xmax") false = some (num hi).toList.toArray := by
+    matchNum (tierHead num k cls name lo hi cnt n ++ ws).toArray (lit "xmax") true = some (num hi).toList.toArray := by
   have ix : 'x' ∉ idxL k ++ ['\n'] := by
     simp [notMem_idxL 'x' k (by decide) (by decide) (by decide)]
   have hu1 : '\n' ∉ tab2 ++ "class = ".toList := by
@@ -1051,7 +1083,7 @@ theorem head_nums (num : α → String) (hnum : ∀ x, LongNum (num x).toList) (
       scanL_skip 'x' ks _ _ _ hsk2]
   constructor
   · rw [matchNum_eq _ _ _ (by decide), lit_xmin, List.toList_toArray, tierHead_shape, common _ _ _ (by decide)]
-    rw [scanL_hit _ _ _ _ (by simp) (numAfter_written true _ _ (hnum lo))]
+    rw [scanL_hit _ _ _ _ (by simp) (numAfter_written _ _ (hnum lo))]
     rfl
   · rw [matchNum_eq _ _ _ (by decide), lit_xmax, List.toList_toArray, tierHead_shape, common _ _ _ (by decide)]
     rw [List.cons_append, scanL_fail _ _ _ _ (by simp [List.isPrefixOf])]
@@ -1060,7 +1092,7 @@ theorem head_nums (num : α → String) (hnum : ∀ x, LongNum (num x).toList) (
     have e1 : ∀ T : List Char, ['m', 'i', 'n'] ++ (' ' :: '=' :: ' ' :: ((num lo).toList ++ ' ' :: '\n' :: (tab2 ++ T))) =
         (['m', 'i', 'n'] ++ (' ' :: '=' :: ' ' :: ((num lo).toList ++ ' ' :: '\n' :: tab2))) ++ T := by
       intro T; simp only [List.append_assoc, List.cons_append, List.nil_append]
-    rw [e1, scanL_after 'x' ['m', 'a', 'x'] _ _ (numAfter false) _ hC (numAfter_written false _ _ (hnum hi))]
+    rw [e1, scanL_after 'x' ['m', 'a', 'x'] _ _ (numAfter true) _ hC (numAfter_written _ _ (hnum hi))]
     rfl
 
 theorem tierHead_shapeN (num : α → String) (k : Nat) (cls : List Char) (name : String) (lo hi : α) (cnt : List Char) (n : Nat)
@@ -2182,12 +2214,12 @@ theorem hdr4 (num : α → String) (lo hi : α) (n : Nat) :
 
 /-- **C01, long format, whole file**: praatio's long-format reader (`_parseNormalTextgrid`) applied to the text praatio's
 long-format emitter writes for ANY textgrid (any number of tiers, also none; any number of entries) returns exactly that
-textgrid — under the hypotheses: numerals match the reader's pattern `[\d.]+(?:[eE][-+]?\d+)?`; no name or label
+textgrid — under the hypotheses: numerals match the reader's captured group `-?[\d.]+(?:[eE][-+]?\d+)?`; no name or label
 contains `item [`, `item[` or the entry separator of its own tier class (A10); labels are strip-invariant; names are
 single-line; no `\r\n` in names and labels.
 
 The hypotheses, classified: `hnum` — a property of the numeral renderer, true of CPython's `repr` / `"%d"` for every finite
-NON-NEGATIVE float, which is what C01 quantifies over (a negative time loses its sign or raises: see `LongNum`);
+float, NEGATIVE ones and `-0.0` included (the sign used to be lost or to raise: defect A30, fixed — see `LongNum`);
 `hkw` — known reader defect A10, needed (`parseLong_keyword_counterexample`); `hlab` — enforced by the code: the
 `IntervalTier` / `PointTier` constructors strip every label, so no in-memory textgrid violates it (the reader strips labels
 too: an unstripped label would come back stripped, as in `parseShort_emit_strip`; tier NAMES need no such hypothesis here —
@@ -2299,7 +2331,8 @@ theorem noKwLong_of_no_bracket (t : AnyTier α) (h : ∀ s ∈ texts t, '[' ∉ 
   exact not_infix_of_not_mem '[' p _ hb (h s hs)
 
 theorem numN_long (n : Nat) : LongNum (numN n).toList := by
-  apply LongNum.plain
+  apply LongNum.pos
+  apply UNum.plain
   · rw [numN, count_toList]; exact Nat.toDigits_ne_nil
   · intro c hc
     rw [numN, count_toList] at hc
@@ -2349,9 +2382,12 @@ def ptT (name l : String) : AnyTier Nat := .P ⟨name, [⟨0, l⟩, ⟨1, "z"⟩
 #guard !longOK [ptT "a" "points ["] && !longOK [ptT "a" "points[1]"] && !longOK [ptT "points [" "x"]
 -- names must be single-line; `\r\n` is rewritten; labels must be strip-invariant (they are: the tier constructors strip)
 #guard !longOK [ivT "a\nb" "x"] && !longOK [ivT "a" "x\r\ny"] && longOK [ivT "a" "x\ry"] && longOK [ivT " a " "x"]
--- a numeral outside `[\d.]+(?:[eE][-+]?\d+)?`: the sign of a negative number is not captured
+-- negative times (regression for A30, fixed): the sign of a negative number is captured, at tier and at entry level
 #guard (match Rd.parseLong (Txt.ofString (tgToLong (fun x : Int => toString x) ⟨[.P ⟨"p", [⟨-1, "x"⟩], -1, 9⟩], none, none⟩ (-1) 9)) with
-  | .ok r => r.tiers.map (·.entries) == [[["1", "x"]]]
+  | .ok r => r.tiers.map (·.entries) == [[["-1", "x"]]] && r.tiers.map (·.xmin) == ["-1"] && r.xmin == "-1"
+  | .error _ => false)
+#guard (match Rd.parseLong (Txt.ofString (tgToLong (fun x : Int => toString x) ⟨[.I ⟨"a", [⟨-3, -2, "x"⟩], -4, -1⟩], none, none⟩ (-4) (-1))) with
+  | .ok r => r.tiers.map (·.entries) == [[["-3", "-2", "x"]]] && r.tiers.map (fun t => (t.xmin, t.xmax)) == [("-4", "-1")]
   | .error _ => false)
 
 /-! ## proved counter-examples (the reader model evaluated by the kernel on the emitted text) -/
